@@ -73,6 +73,9 @@ def make_cases(rng, tier):
     progs = mp.forced_backtrack_cases(rng, n // 5)
     for _ in range(n):
         progs.append(mp.gen_mprog(rng, rng.choice([1, 2, 3, 4, 5, 7, 9]))[0])
+    # engine-restricted column functions requested with every kind of preferred-engine option
+    import c20
+    progs += [c["json"]["program_term"] for c in c20.restricted_cases(rng, n // 6, keep_term=True)[0]]
     for p in progs:
         try:
             w, rel, res = mp.run_build(p)
